@@ -2,7 +2,19 @@
 default_initialization inlined), translated from the AST of sqlparse/lexer.py.
 
 One instruction per Python statement (the GIL makes statements of this kind atomic w.r.t. the
-shared variable).  Fail-closed: any statement shape outside the small language below aborts."""
+shared variable).  Fail-closed: any statement shape outside the small language below aborts.
+
+Two ways of creating the instance are understood:
+    cls._default_instance = cls()                      INewAssign
+    cls._default_instance.default_initialization()     ILoadSelf; <statements of default_initialization>
+and (build completely, then publish)
+    <local> = cls()                                    INewLocal
+    <local>.default_initialization()                   <statements of default_initialization>  (the call line
+                                                       itself touches no shared state: no instruction)
+    cls._default_instance = <local>                    IPublishSelf
+`publishes_before_init` (also emitted into SingletonProg.v) says whether some statement of the initialisation runs
+after the object has become reachable from the shared variable; Sys/HistoryXFacts.v re-derives it from the
+instruction list (publishes_flag_ok)."""
 import ast
 import inspect
 
@@ -76,6 +88,8 @@ def generate():
 
     inst_expr = f'{clsarg}._default_instance'
     prog = []          # list of (instr text or ('jump', placeholder), comment)
+    local = {'name': None, 'initialised': False}     # the one local variable holding the instance being built
+    argnames = {a.arg for a in gdi.args.args + gdi.args.kwonlyargs + gdi.args.posonlyargs}
 
     def tr_block(body):
         for s in _nodoc(body):
@@ -100,6 +114,26 @@ def generate():
                 prog.append(['ILoadSelf', u + '   (receiver evaluated)', ('get_default_instance', s.lineno, '')])
                 for ins, st in zip(init_instrs, side['default_initialization']):
                     prog.append([ins, '  ' + st['stmt'], ('default_initialization', st['line'], '')])
+            elif isinstance(s, ast.Assign) and len(s.targets) == 1 and isinstance(s.targets[0], ast.Name) \
+                    and ast.unparse(s.value) == f'{clsarg}()':
+                # <local> = cls(): a fresh object that only this thread can reach
+                nm = s.targets[0].id
+                if local['name'] is not None or nm in argnames or nm == clsarg:
+                    raise Unsupported('second local instance / assignment to a parameter: ' + u, span(s))
+                local['name'] = nm
+                prog.append(['INewLocal', u, ('get_default_instance', s.lineno, '')])
+            elif local['name'] is not None and u == f"{local['name']}.default_initialization()":
+                if local['initialised']:
+                    raise Unsupported('default_initialization() called twice on the local instance', span(s))
+                local['initialised'] = True
+                # the receiver is a local variable: evaluating it is not an access to shared state, so the call
+                # line itself is no instruction (and no pause point of the real-thread harness)
+                for ins, st in zip(init_instrs, side['default_initialization']):
+                    prog.append([ins, '  ' + st['stmt'] + f"   (self = {local['name']})",
+                                 ('default_initialization', st['line'], '')])
+            elif isinstance(s, ast.Assign) and len(s.targets) == 1 and ast.unparse(s.targets[0]) == inst_expr \
+                    and local['name'] is not None and isinstance(s.value, ast.Name) and s.value.id == local['name']:
+                prog.append(['IPublishSelf', u, ('get_default_instance', s.lineno, '')])
             elif isinstance(s, ast.Return) and s.value is not None and ast.unparse(s.value) == inst_expr:
                 prog.append(['IReturn', u, ('get_default_instance', s.lineno, '')])
             else:
@@ -108,6 +142,15 @@ def generate():
     tr_block(gdi.body)
     if not prog or prog[-1][0] != 'IReturn':
         raise Unsupported('get_default_instance does not end in `return cls._default_instance`')
+    # every Name the function mentions is the class parameter or the one local (nothing else can alias the instance)
+    for n in (x for st in gdi.body for x in ast.walk(st)):
+        if isinstance(n, ast.Name) and n.id not in (clsarg, local['name']):
+            raise Unsupported(f'get_default_instance mentions the name {n.id}', span(n))
+    # does a statement of the initialisation run while the object is already reachable from the shared variable?
+    ops = [p[0].split()[0] for p in prog]
+    pub = [i for i, o in enumerate(ops) if o in ('INewAssign', 'IPublishSelf')]
+    ini = [i for i, o in enumerate(ops) if o in ('IClear', 'ISetRegex', 'IAddKw')]
+    publishes_before_init = bool(pub and ini and min(pub) < max(ini))
 
     lines = [HEADER,
              '(* sqlparse/lexer.py: Lexer.get_default_instance with Lexer.default_initialization inlined. *)\n',
@@ -121,9 +164,16 @@ def generate():
     lines.append('(* the dictionaries default_initialization registers, in order: '
                  + coq_comment(', '.join(kwnames)) + ' *)')
     lines.append('Definition expected_kws : list nat := [' + '; '.join(str(i) for i in range(len(kwnames))) + '].')
+    lines.append('')
+    lines.append('(* is the instance assigned to the shared variable BEFORE its initialisation has finished?  (syntactic: a')
+    lines.append('   publishing instruction precedes a statement of default_initialization; re-derived from the instruction')
+    lines.append('   list by Sys/HistoryXFacts.v: publishes_flag_ok) *)')
+    lines.append('Definition publishes_before_init : bool := %s.' % ('true' if publishes_before_init else 'false'))
     side['prog'] = [p[0] for p in prog]
     side['kwnames'] = kwnames
     # source site of every instruction: function, line, and 'enter'/'exit' for the two events of the with-line
     side['sites'] = [{'fn': p[2][0], 'line': p[2][1], 'phase': p[2][2]} for p in prog]
     side['shared'] = shared
+    side['local'] = local['name']
+    side['publishes_before_init'] = publishes_before_init
     return {'SingletonProg.v': '\n'.join(lines) + '\n'}, side
